@@ -1,6 +1,30 @@
 """Which contracts decide which property."""
 
 PROPERTIES = {
+    "C03": dict(
+        contracts=[
+            ("contracts.dart", "SchedulePattern_rotate"),
+            ("contracts.dart", "SchedulePattern_tile_dim"),
+            ("contracts.dart", "SchedulePattern_add_dim"),
+            ("contracts.dart", "AccessPattern_inner_dims"),
+            ("contracts.dart", "AccessPattern_canonicalize"),
+            ("contracts.dart", "Schedule_rotate"),
+            ("contracts.dart", "Schedule_tile_dim"),
+            ("contracts.dart", "Schedule_add_dim"),
+            ("contracts.dart", "PatternCollection_clear_unused_dims"),
+        ],
+        trusted_base=[],
+    ),
+    "C19": dict(
+        contracts=[
+            ("contracts.dart", "AffineTransform_eval"),
+            ("contracts.dart", "AffineTransform_eval_batch"),
+            ("contracts.dart", "AffineTransform_compose"),
+            ("contracts.dart", "AffineTransform_from_affine_map"),
+            ("contracts.dart", "AffineTransform_to_affine_map"),
+        ],
+        trusted_base=[],
+    ),
     "C10": dict(
         contracts=[
             ("contracts.tsl", "TiledStride_canonicalize"),
